@@ -68,6 +68,12 @@ Theorem C09_history_partial : forall ops s,
 Proof. exact history_partial'. Qed.
 Print Assumptions C09_history_partial.
 
+(* Loop.__eq__ depends on children lists, repetition definitions, waveforms and measurements only: two heaps that agree
+   on these (whatever their caches, parent pointers and recorded positions are) give the same answer for every pair *)
+Theorem C09_eq_structure_only : forall h h', esame h h' -> forall fuel a b, loop_eqb fuel h a b = loop_eqb fuel h' a b.
+Proof. exact loop_eqb_esame. Qed.
+Print Assumptions C09_eq_structure_only.
+
 (* the hypotheses are satisfiable: a one-leaf program satisfies the invariant, and a proved operation runs on it *)
 Theorem C09_nonvacuous : forall w, sInv (leaf_state w) /\
   out_ok (snd (step (leaf_state w) (OSetRepCount [] 5))) /\ proved_op (OSetRepCount [] 5) = true.
